@@ -430,7 +430,10 @@ func (g *G) btcData() []byte {
 	case 2:
 		sb.WriteString("_" + itoa(g.Intn(256)) + "_" + itoa(g.Intn(9)))
 	case 3:
-		sb.WriteString("_" + []string{"256", "+1", "-1", "0x1", "1e1", " 1", "00", "007", "999", "1_"}[g.Intn(10)])
+		sb.WriteString("_" + []string{"256", "+1", "-1", "0x1", "1e1", " 1", "00", "007", "999", "1_", "0b1", "0o7", "1_0"}[g.Intn(13)])
+	case 4, 5:
+		// decimal with leading zeros (a well-formed text): must not be read in another base
+		sb.WriteString("_" + strings.Repeat("0", 1+g.Intn(3)) + itoa(g.Intn(256)))
 	default:
 		sb.WriteString("_" + itoa(g.Intn(256)))
 	}
